@@ -23,6 +23,34 @@ func init() {
 		{"C02", "slot-aliases-read-buffer", "C02.o", ix, "copy(chunkSlot.buf, parsedChunk.Records)", "chunkSlot.buf = parsedChunk.Records[:bufSize]", "chunkSlot.buf"},
 		{"C02", "conditional-seek", "C02.k", ix, "\terr := it.seekTo(chunkIndex.ChunkStartOffset)\n\tif err != nil {\n\t\treturn err\n\t}", "\tvar err error\n\tif chunkIndex.ChunkStartOffset != 0 {\n\t\terr = it.seekTo(chunkIndex.ChunkStartOffset)\n\t\tif err != nil {\n\t\t\treturn err\n\t\t}\n\t}", "read of the shared stream"},
 		{"C02", "file-order-chunks-by-time", "C02.f", ix, "return it.chunkIndexes[i].ChunkStartOffset < it.chunkIndexes[j].ChunkStartOffset\n\t\t\t\t})\n\t\t\tcase LogTimeOrder:", "return it.chunkIndexes[i].MessageStartTime < it.chunkIndexes[j].MessageStartTime\n\t\t\t\t})\n\t\t\tcase LogTimeOrder:", "chunk order in file order"},
+		{"C02", "scan-iterator-built-before-info", "C02.m", "go/mcap/reader.go", `		info, err := r.Info()
+		if err != nil {
+			return nil, fmt.Errorf("could not get info: %w", err)
+		}
+		if !info.CanReadMessagesUsingIndex() {
+			if options.Order != FileOrder {
+				return nil, fmt.Errorf("no index available, only file-order reads are supported")
+			}
+			_, err = r.rs.Seek(startPos, io.SeekStart)
+			if err != nil {
+				return nil, fmt.Errorf("failed to seek to start: %w", err)
+			}
+			return r.unindexedIterator(&options), nil
+`, `		scan := r.unindexedIterator(&options)
+		info, err := r.Info()
+		if err != nil {
+			return nil, fmt.Errorf("could not get info: %w", err)
+		}
+		if !info.CanReadMessagesUsingIndex() {
+			if options.Order != FileOrder {
+				return nil, fmt.Errorf("no index available, only file-order reads are supported")
+			}
+			_, err = r.rs.Seek(startPos, io.SeekStart)
+			if err != nil {
+				return nil, fmt.Errorf("failed to seek to start: %w", err)
+			}
+			return scan, nil
+`, "lexer chunk mode when the sequential iterator is returned"},
 		// C03
 		{"C03", "unstable-sort", "C03.a", ix, "sort.SliceStable(unreadMessageIndexes, func(i, j int) bool {\n\t\t\t\treturn unreadMessageIndexes[i].timestamp < unreadMessageIndexes[j].timestamp", "sort.Slice(unreadMessageIndexes, func(i, j int) bool {\n\t\t\t\treturn unreadMessageIndexes[i].timestamp < unreadMessageIndexes[j].timestamp", "sort of the message queue"}, // (S)
 		{"C03", "non-strict-comparator", "C03.b", ix, "return unreadMessageIndexes[i].timestamp > unreadMessageIndexes[j].timestamp", "return unreadMessageIndexes[i].timestamp >= unreadMessageIndexes[j].timestamp", "comparator"},
